@@ -1,6 +1,7 @@
 import WacModel.Parser
 import WacModel.AstJson
 import WacProofs.Lemmas.LexSpans
+import WacProofs.Lemmas.ParserBasic
 /-
   Every diagnostic of the parser model points inside the source, on character boundaries
   (induction over the parse functions with an invariant on the lexer state).
@@ -24,7 +25,7 @@ def GoodErr (src : Str) (e : ParseError) : Prop :=
   | .Lexer _ s | .Expected _ _ s | .ExpectedEither _ _ _ s | .ExpectedMultiple _ _ _ s
   | .EmptyType _ _ s => GoodSpan src s
   | .InvalidVersion _ s => s.offset + s.len ≤ utf8Len src
-  | .Panic _ => True
+  | .Panic site => site = "PackagePath: no slash"
   | .OutOfFuel => True
 
 theorem charAt_good (b : Nat) : ∀ (s : Str) (pos : Nat) (pre : Str), pos = utf8Len pre →
@@ -111,20 +112,20 @@ theorem good_bind {α β : Type} {src : Str} {x : Except ParseError (α × PStat
   | error e => exact hx
   | ok p => exact hf p rfl hx
 
-theorem lookaheadError_good {src st} (hi : Inv src st) (attempts : List Token) :
+theorem lookaheadError_good {src st} (hi : Inv src st) (attempts : List Token) (hne : attempts ≠ []) :
     GoodErr src (lookaheadError st attempts) := by
   unfold lookaheadError
   have hsp := span_good hi
   cases hp : st.peek with
   | none =>
     simp only []
-    split <;> simp [GoodErr, hsp]
+    split <;> simp_all [GoodErr]
   | some t =>
     have ht : GoodSpan src t.span := ⟨_, hi.toks t (by
       simp [PState.peek] at hp; exact List.mem_of_mem_head? hp)⟩
     simp only []
     cases t.res with
-    | ok k => simp only []; split <;> simp [GoodErr, ht]
+    | ok k => simp only []; split <;> simp_all [GoodErr]
     | error e => simp [GoodErr, ht]
 
 theorem good_parseToken {src st} (hi : Inv src st) (k : Token) : Good src (parseToken st k) := by
@@ -187,7 +188,7 @@ theorem good_parseDelimited {α : Type} {src} (stop : Token) (commas : Bool) (pe
     split
     · exact good_ok hi
     · split
-      · exact good_err (lookaheadError_good hi _)
+      · exact good_err (lookaheadError_good hi _ (by simp))
       · have h1 := hitem st hi
         cases hit : item st with
         | error e => rw [hit] at h1; exact good_err h1
@@ -214,7 +215,7 @@ theorem good_parseDelimited {α : Type} {src} (stop : Token) (commas : Bool) (pe
                 cases hr : parseDelimited stop commas peeks item fuel st1 with
                 | error e => rw [hr] at h3; exact good_err h3
                 | ok q2 => rw [hr] at h3; obtain ⟨xs, st3⟩ := q2; exact good_ok h3
-          · exact good_err (lookaheadError_good h1 _)
+          · exact good_err (lookaheadError_good h1 _ (by simp))
 
 /-- the token returned by a successful `parse_token` is a slice of the source -/
 theorem parseToken_slice {src st k t st'} (hi : Inv src st) (h : parseToken st k = .ok (t, st')) :
@@ -277,6 +278,33 @@ theorem next_inv' {src st o st'} (hi : Inv src st) (h : st.next = (o, st')) : In
   rw [h] at this
   exact this
 
+/-- `next()` cannot return `None` when a token was just peeked -/
+theorem next_none_contra {st : PState} {st' : PState} {k : Token}
+    (h : st.next = (none, st')) (hp : peekTok st = some k) : False := by
+  cases hts : st.toks with
+  | nil => simp [peekTok, PState.peek, hts] at hp
+  | cons t r =>
+    obtain ⟨_, _, _, _, _, t', h1, _⟩ := next_cons hts
+    rw [h] at h1
+    simp at h1
+
+/-- the `assert!(!types.is_empty())` of `Type::parse` cannot fail after its lookahead -/
+theorem tuple_assert_contra {st st' : PState} {item : PState → Except ParseError (Ty × PState)} {fuel : Nat}
+    {types : List Ty}
+    (hp : ¬(!peekIn st typePeeks) = true)
+    (h : parseDelimited .CloseAngle true typePeeks item fuel st = .ok (types, st'))
+    (he : types.isEmpty = true) : False := by
+  have hs : peekIs st .CloseAngle = false := by
+    simp only [peekIn, peekIs] at hp ⊢
+    cases hk : peekTok st with
+    | none => simp
+    | some k =>
+      simp only [hk] at hp
+      have hc : typePeeks.contains k = true := by simpa using hp
+      cases k <;> first | rfl | (exfalso; revert hc; decide)
+  have := Wac.Lemmas.ParserBasic.delimited_nonempty h hs
+  simp_all
+
 /-- find the invariant of the current state -/
 syntax "inv_tac" : tactic
 macro_rules | `(tactic| inv_tac) => `(tactic| first
@@ -296,7 +324,9 @@ macro_rules
   | `(tactic| good_tac [$ts,*]) => `(tactic| repeat (first
       | assumption
       | exact good_ok (by inv_tac)
-      | exact good_err (lookaheadError_good (by inv_tac) _)
+      | exact good_err (lookaheadError_good (by inv_tac) _ (by simp [typePeeks, typeDeclPeeks, itemTypeDeclPeeks, interfaceItemPeeks, worldItemPeeks, typeStatementPeeks, statementPeeks, instantiationArgumentPeeks]))
+      | (exfalso; exact next_none_contra (by assumption) (by assumption))
+      | (exfalso; exact tuple_assert_contra (by assumption) (by assumption) (by assumption))
       | (focus (apply good_err; simp [GoodErr]; done))
       | (apply good_err; simp only [GoodErr]; refine ⟨_, parseToken_slice ?_ (by assumption)⟩; assumption)
       | good_lemma
